@@ -145,6 +145,13 @@ theorem fwd_flushLoop (fuel : Nat) : Pres fwdSpec (flushLoop fuel) := by
             split
             · rename_i start hstart
               wp_head
+              split
+              · -- every stream id of the local parity is in use: the channel is closed
+                refine WP.pres_after (S := fwdSpec) ?_ hI1 ?_
+                · pres
+                · exact (fwd_same hI (l2 := []) rfl rfl hI.2 (by simp) (by simp)).2
+              rename_i hsmall
+              wp_head
               have hpar : start = parity s.1 := hI.2 start hstart
               have hst : ChanStep (parity s.1) c
                   { c with id := some (flushLoop.pick s.1 (s.1.dataChannels.length + 1) start) } := by
@@ -152,6 +159,7 @@ theorem fwd_flushLoop (fuel : Nat) : Pres fwdSpec (flushLoop fuel) := by
                 · intro x h; rw [hid] at h; cases h
                 · intro _ x hx
                   have hx' : flushLoop.pick s.1 (s.1.dataChannels.length + 1) start = x := Option.some.inj hx
+                  refine ⟨?_, by rw [← hx']; omega⟩
                   rw [← hx', pick_parity, hpar]
                   unfold parity; split <;> rfl
               have hr := fwd_set (s := s) hI (i := i) (c := c)
